@@ -360,8 +360,11 @@ Section Fix.
         let s3 := if larger then
                     let s' := rs_err (rs_tag s2 [tg K_ERR_SIZE [pos; j] [name]]) 1 in
                     if co_fix o
-                    then rs_recov (rs_tag (rs_setfs s' (fs_put (r_fs s') j (mkFF name (cf_size f) now 0 (ff_inode g0) (firstn (nblocks bs (cf_size f)) (ff_blocks g0)))))
-                                          [tg K_FIXED_SIZE [pos; j] [name]]) 1
+                    then
+                      (* the file is cut back to its recorded size and flagged FIXED, so that file_post reports it recovered and
+                         gives it its recorded time-stamp back (993feac; before, the time of the truncation was left) *)
+                      rs_flag (rs_recov (rs_tag (rs_setfs s' (fs_put (r_fs s') j (mkFF name (cf_size f) now 0 (ff_inode g0) (firstn (nblocks bs (cf_size f)) (ff_blocks g0)))))
+                                                [tg K_FIXED_SIZE [pos; j] [name]]) 1) key fl_set_fixed
                     else s'
                   else s2 in
         Some (rs_flag s3 key fl_set_opened)
